@@ -521,6 +521,65 @@ def gen_indicator(g, ty, spec, H, idx):
     return i
 
 
+MIN_OBJECTIVES = [
+    "MinimizeMakespan", "MinimizeResourceCost", "Priorities", "TasksStartEarliest", "MinimizeGreatestStartTime",
+    "MinimizeFlowtime", "MinimizeFlowtimeSingleResource", "MinimizeMaxBufferLevel", "MinimizeIndicator",
+]
+MAX_OBJECTIVES = ["MaximizeResourceUtilization", "TasksStartLatest", "MaximizeMaxBufferLevel", "MaximizeIndicator"]
+
+
+def gen_objective(g, ty, spec, H, idx):
+    names = [t["name"] for t in spec["tasks"]]
+    busy = assigned_resources(spec)
+    workers = [w["name"] for w in spec["workers"] if busy.get(w["name"], 0) >= 1]
+    o = {"type": ty, "id": f"o{idx}"}
+    if g.chance(30):
+        o["weight"] = g.int(1, 3)
+    if ty in ("MaximizeResourceUtilization", "MinimizeFlowtimeSingleResource"):
+        if not workers:
+            return None
+        o["res"] = g.pick(workers)
+        if ty == "MinimizeFlowtimeSingleResource" and g.chance(40):
+            o["interval"] = g.interval(0, max(1, H if H is not None else 6))
+    elif ty == "MinimizeResourceCost":
+        pool = sorted(busy)
+        if not pool:
+            return None
+        o["ress"] = g.subset(pool, 1, 3)
+    elif ty in ("TasksStartLatest", "MinimizeGreatestStartTime", "MinimizeFlowtime"):
+        o["tasks"] = None if g.chance(50) else g.subset(names, 1, 4)
+    elif ty in ("MaximizeMaxBufferLevel", "MinimizeMaxBufferLevel"):
+        if not spec["buffers"]:
+            return None
+        o["buffer"] = g.pick([b["name"] for b in spec["buffers"]])
+    elif ty in ("MinimizeIndicator", "MaximizeIndicator"):
+        if not spec["indicators"]:
+            return None
+        o["ind"] = g.pick([i["id"] for i in spec["indicators"]])
+        o.setdefault("weight", 1)
+    return o
+
+
+def gen_objectives(g, spec, H, n, direction=None):
+    direction = direction or g.pick(["min", "min", "max"])
+    pool = list(MIN_OBJECTIVES if direction == "min" else MAX_OBJECTIVES)
+    out, seen = [], set()
+    for k in range(n):
+        for _ in range(4):
+            ty = g.pick(pool)
+            if ty in seen and ty not in ("MinimizeIndicator", "MaximizeIndicator"):
+                continue
+            o = gen_objective(g, ty, spec, H, len(out) + 1)
+            if o is None:
+                continue
+            if ty in ("MinimizeIndicator", "MaximizeIndicator") and any(x.get("ind") == o["ind"] for x in out):
+                continue
+            seen.add(ty)
+            out.append(o)
+            break
+    return out
+
+
 # ---------------------------------------------------------------------------------------------
 @st.composite
 def specs(draw, prof=None):
@@ -612,6 +671,9 @@ def specs(draw, prof=None):
                 continue
             seen_builtin.add(key)
         spec["indicators"].append(i)
+    no = g.cnt(prof["objectives"])
+    if no:
+        spec["objectives"] = gen_objectives(g, spec, H, no, prof.get("objective_direction"))
     pct = prof.get("indicator_constraints", 0)
     if pct:
         Hh = H if H is not None else 6
